@@ -242,6 +242,14 @@ class CallMixin:
                 except Unsupported:
                     raise Unsupported('argument %s of %s: have %s, contract says %s' % (n, fs.key, bound[n].t, t))
         self.callee_keys.add(fs.key)
+        if fs.d.get('mutates_live_view') and 'self' in bound:
+            # the caller is iterating a live view (for x in recv.m(): ...) of an object this call restructures:
+            # Python's list iterator would skip or repeat elements -- outside the value model of lists, so it is
+            # an obligation that the receiver is not one being iterated
+            for (recv, via) in getattr(self, 'live_views', []):
+                self.ob('call_pre', '%s@%s.not_while_iterating_%s' % (self.short(fs.key), self.frame.name,
+                                                                       via.rsplit('.', 1)[-1]),
+                        bound['self'].z != recv.z, props=fs.props, aux=not fs.props)
         pre = self.st.copy()
         pre_locals = dict(bound)
         # requires
@@ -278,7 +286,18 @@ class CallMixin:
                     ev.attrs[an] = self.spec_eval(anode, env, old_state=pre, old_locals=pre_locals)
                 raise PyExc(ev)
         # normal outcome
+        heap_before = dict(self.st.heap)
         self.apply_modifies(fs.modifies)
+        if fs.d.get('modifies_self_only') and 'self' in bound:
+            # object-granular frame: of the fields named, only those of `self` may have changed
+            sz = bound['self'].z
+            for key, new in self.st.heap.items():
+                old = heap_before.get(key)
+                if old is None or new.eq(old):
+                    continue
+                r = z3.Int(fresh_name('fo'))
+                self.assume(z3.ForAll([r], z3.Implies(r != sz, z3.Select(new, r) == z3.Select(old, r)),
+                                      patterns=[z3.Select(new, r)]))
         rts = (case or {}).get('returns', fs.returns)
         rt = parse_type(rts) if rts else TNone
         result = fresh(rt, 'ret_' + fdef.name)
